@@ -127,48 +127,63 @@ mod __verif_c05 {
         }
     }
 
-    fn f64_case(nan_literal: bool, both_zero: bool) {
-        let (min, max, v, lit): (f64, f64, f64, f64) = kani::any();
-        kani::assume(!min.is_nan() && !max.is_nan() && !v.is_nan());
-        kani::assume(min <= v && v <= max);
-        kani::assume(lit.is_nan() == nan_literal);
-        kani::assume((v == 0.0 && lit == 0.0) == both_zero);
-        let op = any_cmp_op();
-        let st = ParquetStatistics::double(Some(min), Some(max), None, kani::any(), false);
-        let might = check_f64_stats(&st, op, lit);
-        kani::cover!(!might);
-        kani::cover!(might);
-        if row_f64(op, v, lit) {
-            assert!(might, "C05.skip_sound_f64");
+    /// IEEE row semantics (what the compiled predicate path evaluates)
+    fn row_f64_ieee(op: BinaryOp, v: f64, lit: f64) -> bool {
+        match op {
+            BinaryOp::Eq => v == lit,
+            BinaryOp::NotEq => v != lit,
+            BinaryOp::Lt => v < lit,
+            BinaryOp::LtEq => v <= lit,
+            BinaryOp::Gt => v > lit,
+            BinaryOp::GtEq => v >= lit,
+            _ => true,
         }
     }
 
     // @harness tiers=quick,thorough
     // @encodes storage::row_group_pruning::check_f64_stats, storage::row_group_pruning::eval_range_f64
-    // @bounds DOUBLE statistics vs DOUBLE literal: every non-NaN f64 literal incl. +-inf; statistics non-NaN with min <= max (parquet-rs writer contract); value v non-NaN with min <= v <= max in IEEE order; EXCLUDED: NaN literal and the case v == 0.0 && lit == 0.0 (both zeros, any signs) -- those two regions are the known findings C05-f64-nan-literal / C05-f64-signed-zero, each pinned by its own harness below
-    // @oracle totalOrder row semantics (arrow-ord cmp): row(v op lit) => not skipped
+    // @bounds DOUBLE statistics vs DOUBLE literal: EVERY f64 literal incl. NaN of either sign, +-0, +-inf; statistics non-NaN with min <= max (parquet-rs writer contract); value v non-NaN with min <= v <= max in IEEE order (so a -0.0 row may sit under a +0.0 bound and vice versa)
+    // @oracle a row kept under EITHER of the engine's two float semantics -- totalOrder (interpreter, arrow-ord cmp) or IEEE operators (compiled predicates) -- is never in a skipped row group
     // @out NaN values stored inside the row group (Parquet statistics ignore NaN)
     #[kani::proof]
     fn skip_sound_f64_stats_f64_literal() {
-        f64_case(false, false);
+        let (min, max, v, lit): (f64, f64, f64, f64) = kani::any();
+        kani::assume(!min.is_nan() && !max.is_nan() && !v.is_nan());
+        kani::assume(min <= v && v <= max);
+        let op = any_cmp_op();
+        let st = ParquetStatistics::double(Some(min), Some(max), None, kani::any(), false);
+        let might = check_f64_stats(&st, op, lit);
+        kani::cover!(!might);
+        kani::cover!(might && lit.is_nan());
+        kani::cover!(might && v == 0.0 && lit == 0.0);
+        if row_f64(op, v, lit) {
+            assert!(might, "C05.skip_sound_f64_total_order");
+        }
+        if row_f64_ieee(op, v, lit) {
+            assert!(might, "C05.skip_sound_f64_ieee");
+        }
     }
 
-    // @harness tiers=quick,thorough finding=C05-f64-nan-literal
-    // @encodes storage::row_group_pruning::check_f64_stats, storage::row_group_pruning::eval_range_f64
-    // @bounds as skip_sound_f64_stats_f64_literal but ONLY NaN literals (either sign)
-    // @oracle totalOrder: -NaN sorts below and +NaN above every value, so `x >= -NaN`, `x <> NaN`, `x < NaN` keep rows
+    // @harness tiers=quick,thorough
+    // @encodes storage::row_group_pruning::check_f64_stats
+    // @bounds FLOAT (f32) statistics vs DOUBLE literal, same domain as skip_sound_f64_stats_f64_literal with f32 min/max/value
+    // @oracle the interpreter widens the column to f64; a row kept under totalOrder or IEEE semantics is never skipped
     #[kani::proof]
-    fn kf_f64_nan_literal() {
-        f64_case(true, false);
-    }
-
-    // @harness tiers=quick,thorough finding=C05-f64-signed-zero
-    // @encodes storage::row_group_pruning::check_f64_stats, storage::row_group_pruning::eval_range_f64
-    // @bounds as skip_sound_f64_stats_f64_literal but ONLY v == 0.0 && lit == 0.0 (signs free)
-    // @oracle totalOrder: -0.0 < +0.0, so `x < 0.0` keeps a -0.0 row and `x <> 0.0` keeps it too
-    #[kani::proof]
-    fn kf_f64_signed_zero() {
-        f64_case(false, true);
+    fn skip_sound_f32_stats_f64_literal() {
+        let (min, max, v): (f32, f32, f32) = kani::any();
+        let lit: f64 = kani::any();
+        kani::assume(!min.is_nan() && !max.is_nan() && !v.is_nan());
+        kani::assume(min <= v && v <= max);
+        let op = any_cmp_op();
+        let st = ParquetStatistics::float(Some(min), Some(max), None, kani::any(), false);
+        let might = check_f64_stats(&st, op, lit);
+        kani::cover!(!might);
+        if row_f64(op, v as f64, lit) {
+            assert!(might, "C05.skip_sound_f32_total_order");
+        }
+        if row_f64_ieee(op, v as f64, lit) {
+            assert!(might, "C05.skip_sound_f32_ieee");
+        }
     }
 
     // @harness tiers=quick,thorough
